@@ -1436,8 +1436,84 @@ def oracle_C24(run):
     return out
 
 
+# ---------------------------------------------------------------------------
+# C22  server push rules
+# ---------------------------------------------------------------------------
+def oracle_C22(run):
+    out = []
+    client = roles(run)
+    for i, (op, ol, ml, obs) in enumerate(run.log):
+        if obs is None:
+            continue
+        o = op['op']
+        c = conn_of(op)
+        sb, sa = obs['snap_before'], obs['snap_after']
+        r = res(obs)
+        if o == 'push_stream':
+            sid, promised = op['sid'], op['promised']
+            if r[0] == 'ok':
+                why = None
+                st = sb['streams'].get(sid)
+                if client[c]:
+                    why = 'client-pushed'
+                elif sb['remote'].get(2, [None])[0] != 1:
+                    why = 'push-disabled-by-peer'
+                elif sid % 2 == 0:
+                    why = 'push-on-pushed-stream'
+                elif st is None or st[0] not in ('OPEN', 'HALF_CLOSED_REMOTE'):
+                    why = 'parent-not-open'
+                elif promised % 2 != 0 or promised <= sb['hi_out'] or promised > MAX31:
+                    why = 'bad-promised-id'
+                if why:
+                    out.append(fail('push-accepted', i, why=why))
+                    continue
+                fr = raw_frames(obs.get('appended') or b'')
+                pp = [f for f in (fr or []) if f['type'] == wire.PUSH_PROMISE]
+                if len(pp) != 1 or pp[0]['sid'] != sid:
+                    out.append(fail('push-not-one-push-promise', i))
+                    continue
+                ps = sa['streams'].get(promised)
+                if ps is None or ps[0] != 'RESERVED_LOCAL':
+                    out.append(fail('promised-stream-not-reserved', i, state=ps[0] if ps else None))
+                    continue
+            else:
+                if obs['out'] != '+.':
+                    out.append(fail('refused-push-emitted-bytes', i))
+                    continue
+                if promised not in sb['streams'] and promised in sa['streams']:
+                    out.append(fail('refused-push-left-a-stream', i, state=sa['streams'][promised][0]))
+                    continue
+        if is_recv(op) and client.get(c):
+            data = obs.get('xfer_data') if o == 'xfer' else op['data']
+            rfs = raw_frames(data) if before_buf_empty(run, i, c) and buflen(ol) == '0' else None
+            evs = [e for e in obs['raw_events'] if type(e).__name__ == 'PushedStreamReceived']
+            if rfs is not None and len(rfs) == 1 and rfs[0]['type'] == wire.PUSH_PROMISE and (rfs[0]['flags'] & 4):
+                f = rfs[0]
+                if sb['local'].get(2, [None])[0] == 0 and sb['state'] != 'CLOSED':
+                    if not is_protocol_error(obs):
+                        out.append(fail('push-promise-accepted-with-push-disabled', i, got=obs['res']))
+                        continue
+                if evs:
+                    e = evs[0]
+                    pl = f['payload'][1:] if f['flags'] & 8 else f['payload']
+                    want_promised = struct.unpack('>I', pl[:4])[0] & 0x7FFFFFFF
+                    if e.parent_stream_id != f['sid'] or e.pushed_stream_id != want_promised:
+                        out.append(fail('pushed-stream-event-ids', i, got=(e.parent_stream_id, e.pushed_stream_id), want=(f['sid'], want_promised)))
+                        continue
+                    if f['sid'] % 2 == 0:
+                        out.append(fail('push-on-pushed-stream-reported', i))
+                        continue
+                    ps = sa['streams'].get(want_promised)
+                    if ps is None or ps[0] != 'RESERVED_REMOTE':
+                        out.append(fail('promised-stream-not-reserved', i, state=ps[0] if ps else None))
+                        continue
+            elif rfs is not None and evs and not any(f['type'] == wire.PUSH_PROMISE for f in rfs):
+                out.append(fail('pushed-stream-event-without-frame', i))
+    return out
+
+
 ORACLES = {
     'C02': oracle_C02, 'C03': oracle_C03, 'C04': oracle_C04, 'C05': oracle_C05, 'C07': oracle_C07, 'C08': oracle_C08,
     'C09': oracle_C09, 'C10': oracle_C10, 'C12': oracle_C12, 'C13': oracle_C13, 'C17': oracle_C17, 'C18': oracle_C18,
-    'C19': oracle_C19, 'C21': oracle_C21, 'C24': oracle_C24, 'C26': oracle_C26, 'C27': oracle_C27, 'C29': oracle_C29,
+    'C19': oracle_C19, 'C21': oracle_C21, 'C22': oracle_C22, 'C24': oracle_C24, 'C26': oracle_C26, 'C27': oracle_C27, 'C29': oracle_C29,
 }
